@@ -13,7 +13,15 @@ RULE = ("seeded generator: one session id driven through udpSessionManager.feed 
         "1..2000 datagrams: uniform over the pool (more distinct destinations than the 256-entry cache), small working sets, "
         "sequential sweeps repeated after eviction, denied/allowed alternation; hook off / rewrite-all / rewrite-some / rewrite-to-same / "
         "error; dial faults, socket replies and idle closes interleaved. The cache key evicted by Go's map iteration is recorded and fed "
-        "to the model as the oracle. Non-trivial = the session evicted a cache entry, met a denied destination, or was hooked. "
+        "to the model as the oracle. FRAGMENTED datagrams whose fragments name DIFFERENT destinations: every arrival order of 2 and 3 "
+        "fragments x every allowed/rejected assignment x (verdicts cached / only the allowed ones cached / nothing cached), in a live plain "
+        "session, as the first datagram of a session and in hooked sessions; duplicates, packets abandoned for another id, FragID >= "
+        "FragCount, count changes; random sessions mixing complete and fragmented datagrams (2-4 fragments, shuffled). WRITE ERRORS: the "
+        "WriteTo of a Feed fails, at every position of short hooked (rewrite-all / rewrite-some) and plain sessions incl. the first datagram "
+        "of a session and after a close, and at random in the mixed sessions; the fake socket logs every WriteTo attempt with its address, "
+        "successful or not, and the address of every CheckUDP call is recorded and compared with the model's. "
+        "Non-trivial = the session evicted a cache entry, met a denied destination, was hooked, completed a datagram from disagreeing "
+        "fragments or had a write fail. "
         "Distinct = distinct JSON case. Second stream (policy adapter, extras/outbounds): generated text rule sets over fake outbounds behind "
         "PluggableOutboundAdapter, bare and (class 'resolve') behind a static-table resolver stage with destinations given as host names that "
         "resolve v4 / v6 / both / to nothing / with a lookup error into, next to and at the edges of the CIDR and IP rules (plus IP literals), "
@@ -26,7 +34,8 @@ ASSUMPTIONS = [
     "a client datagram never carries the empty destination string (wf_input; ParseUDPMessage rejects a zero-length address)",
 ]
 TRUSTED = ["modelled rather than verified: udpSessionEntry.Feed/checkAddr/initConn and the reply address stamp of core/server/udp.go "
-           "(hand transcription in coq/model/C08_UDPPolicy.v); the UDP entry points of PluggableOutboundAdapter / resolver stage / aclEngine "
+           "(hand transcription in coq/model/C08_UDPPolicy.v and, with the Defragger in front and the WriteTo result explicit, "
+           "coq/model/C08_Feed.v; its Defragger is proved to be the C05 model of frag.Defragger.Feed with the payload forgotten); the UDP entry points of PluggableOutboundAdapter / resolver stage / aclEngine "
            "(coq/model/C08_Adapter.v on top of the C09 engine model); the resolver stage is a static-table stand-in with the shape of "
            "systemResolver/standardResolver; the harness checks on generated rule sets that CheckUDP(addr)==nil iff UDP(addr) succeeds with "
            "identical routing (outbound, rewritten address, resolve info) and that both equal the generator's first-match evaluation"]
@@ -108,6 +117,148 @@ EDGE_CASES = [
 ]
 
 
+def _perms(n):
+    import itertools
+    return list(itertools.permutations(range(n)))
+
+
+def frag_ops(pid, addrs, order, fault=0, werr_at=None):
+    """one datagram as len(addrs) fragments; fragment i names addrs[i]; `order` = arrival order of the FragIDs"""
+    cnt = len(addrs)
+    return [[3, addrs[f], fault, 1 if werr_at is not None and j == werr_at else 0, pid, f, cnt] for j, f in enumerate(order)]
+
+
+def gen_frag_directed(rng):
+    """Datagrams whose fragments DISAGREE about the destination: every arrival order of 2 and 3 fragments, every
+    allowed/rejected assignment, in a live plain session (destination verdicts cached and not cached), as the first
+    datagram of a session, and in a hooked session."""
+    cases = []
+    A = rng.sample(range(1, POOL), 6)            # allowed
+    D = rng.sample([x for x in range(1, POOL) if x not in A], 6)   # rejected
+    pid = [rng.randrange(1, 60000)]
+
+    def nxt():
+        pid[0] = pid[0] % 65535 + 1
+        return pid[0]
+    for cnt in (2, 3):
+        perms = _perms(cnt)
+        for mask in range(1, 2 ** cnt - 1):          # at least one allowed and one rejected fragment address
+            for warm in (0, 1, 2):
+                ops = [[0, A[0], 0]]                  # the session comes up on an allowed destination
+                if warm == 1:                          # the verdicts of the addresses involved are already cached
+                    ops += [[0, A[1], 0], [0, A[2], 0], [0, D[1], 0], [0, D[2], 0], [0, D[3], 0]]
+                elif warm == 2:                        # only the allowed ones are cached
+                    ops += [[0, A[1], 0], [0, A[2], 0], [0, A[3], 0]]
+                for order in perms:
+                    addrs = [(A[1 + i] if mask >> i & 1 else D[1 + i]) for i in range(cnt)]
+                    ops += frag_ops(nxt(), addrs, order)
+                ops += [[1, A[0]], [0, A[0], 0]]
+                cases.append({"pool": POOL, "allowed": sorted(A), "hook": [0], "ops": ops})
+    # disagreeing fragments as the FIRST datagram of the session (the dial vets one of the addresses)
+    for order in _perms(2) + _perms(3)[:4]:
+        cnt = len(order)
+        for mask in range(0, 2 ** cnt):
+            addrs = [(A[i] if mask >> i & 1 else D[i]) for i in range(cnt)]
+            ops = frag_ops(nxt(), addrs, order) + [[0, A[3], 0], [0, D[3], 0]] + frag_ops(nxt(), addrs, order) + [[1, A[3]]]
+            cases.append({"pool": POOL, "allowed": sorted(A), "hook": [0], "ops": ops})
+    # hooked sessions: whatever the fragments say, only the rewritten destination is written to
+    for hook in ([1, A[5]], [2, 2, A[5]]):
+        for order in _perms(2) + _perms(3)[:3]:
+            cnt = len(order)
+            addrs = [rng.choice(D + A[:3]) for _ in range(cnt)]
+            first = rng.choice([x for x in D if hook[0] == 1 or x % 2 == 0] or D)
+            ops = [[0, first, 0]] + frag_ops(nxt(), addrs, order) + [[1, A[0]]] + frag_ops(nxt(), list(reversed(addrs)), order, werr_at=cnt - 1)
+            cases.append({"pool": POOL, "allowed": sorted(A), "hook": hook, "ops": ops})
+    # defragmenter corners: duplicates, a packet abandoned for another id, FragID >= FragCount, count change
+    p1, p2 = nxt(), nxt()
+    ops = [[0, A[0], 0],
+           [3, D[0], 0, 0, p1, 0, 2], [3, D[0], 0, 0, p1, 0, 2], [3, A[1], 0, 0, p1, 1, 2], [3, A[1], 0, 0, p1, 1, 2],
+           [3, D[1], 0, 0, p2, 0, 3], [3, A[2], 0, 0, p1, 1, 2], [3, D[2], 0, 0, p1, 0, 2],
+           [3, A[1], 0, 0, p2, 2, 2], [3, A[1], 0, 0, p2, 5, 3], [3, D[1], 0, 0, p2, 0, 3], [3, A[1], 0, 0, p2, 1, 3],
+           [3, A[2], 0, 0, p2, 2, 3], [3, D[3], 0, 0, p2, 2, 3], [3, A[2], 0, 0, p2, 0, 2], [3, D[3], 0, 0, p2, 1, 2]]
+    cases.append({"pool": POOL, "allowed": sorted(A), "hook": [0], "ops": ops})
+    return cases
+
+
+def gen_werr_directed(rng):
+    """A failing WriteTo at every position of short sessions, hooked and plain; in the hooked ones the datagrams name
+    destinations the policy rejects, so a datagram re-sent to its own address after the failure is a policy breach."""
+    cases = []
+    A = rng.sample(range(1, POOL), 5)
+    D = rng.sample([x for x in range(1, POOL) if x not in A], 5)
+    n = 4
+    for hook in ([1, A[4]], [2, 1, A[4]], [0]):
+        for pos in list(range(n)) + [None, "all"]:
+            ops = []
+            for j in range(n):
+                a = (D[j % len(D)] if j % 2 == 0 else A[j % 4]) if hook[0] else (A[j % 4] if j != 2 else D[0])
+                ops.append([0, a, 0, 1 if (pos == "all" or pos == j) else 0])
+                if j == 1:
+                    ops.append([1, A[0]])
+            ops.append([0, D[1] if hook[0] else A[1], 0, 0])
+            cases.append({"pool": POOL, "allowed": sorted(A), "hook": hook, "ops": ops})
+    # after a close the next session starts with a failing write
+    ops = [[0, D[0], 0, 0], [2], [0, D[1], 0, 1], [0, D[2], 0, 0], [2], [0, D[0], 1, 1], [0, D[0], 0, 1]]
+    cases.append({"pool": POOL, "allowed": sorted(A), "hook": [1, A[4]], "ops": ops})
+    return cases
+
+
+def gen_frag_session(rng):
+    """random session mixing complete datagrams, fragmented datagrams (same / different addresses per fragment, random
+    arrival order, sometimes interrupted), replies, closes, dial faults and write errors"""
+    dens = rng.choice([0.3, 0.5, 0.5, 0.7, 0.9])
+    small = rng.sample(range(1, POOL), rng.choice([4, 8, 30]))       # a small working set so that verdicts get cached
+    allowed = [a for a in small if rng.random() < dens]
+    if rng.random() < 0.8 and not allowed:
+        allowed = [small[0]]
+    okl = allowed or [small[0]]
+    hm = rng.random()
+    if hm < 0.55:
+        hook = [0]
+    elif hm < 0.8:
+        hook = [1, rng.choice(okl)]
+    elif hm < 0.95:
+        hook = [2, rng.choice([2, 3]), rng.choice(okl)]
+    else:
+        hook = [3]
+    pw = rng.choice([0.0, 0.0, 0.1, 0.3])
+    ops = []
+    pid = rng.randrange(1, 65000)
+    started = False
+    for _ in range(rng.randint(6, 40)):
+        x = rng.random()
+        if x < 0.07 and ops:
+            ops.append([1, rng.choice(small)])
+        elif x < 0.11 and ops:
+            ops.append([2])
+            started = False
+        elif x < 0.45:
+            a = rng.choice(okl) if (not started and rng.random() < 0.8) else rng.choice(small)
+            ops.append([0, a, 1 if rng.random() < 0.04 else 0, 1 if rng.random() < pw else 0])
+            started = True
+        else:
+            cnt = rng.choice([2, 2, 3, 4])
+            pid = pid % 65535 + 1
+            if rng.random() < 0.3:
+                addrs = [rng.choice(small)] * cnt
+            else:
+                addrs = [rng.choice(small) for _ in range(cnt)]
+            order = list(range(cnt))
+            rng.shuffle(order)
+            fo = frag_ops(pid, addrs, order, fault=1 if rng.random() < 0.04 else 0,
+                          werr_at=(cnt - 1) if rng.random() < pw else None)
+            r = rng.random()
+            if r < 0.12:
+                fo = fo[:-1]                                   # abandoned
+            elif r < 0.22:
+                fo.insert(rng.randrange(len(fo)), list(rng.choice(fo)))   # a duplicate
+            elif r < 0.30:
+                fo.insert(rng.randrange(1, len(fo) + 1), [0, rng.choice(small), 0, 0])   # a complete datagram in between
+            ops += fo
+            started = True
+    return {"pool": POOL, "allowed": sorted(allowed), "hook": hook, "ops": ops}
+
+
 def gen(rng, tier):
     nq = 90 if tier == "quick" else 2500
     cases = []
@@ -121,6 +272,15 @@ def gen(rng, tier):
     cases += [dict(c) for c in EDGE_CASES]
     for i in range(nq):
         cases.append(gen_session(rng, big=(i % 25 == 0)))
+    # fragments that disagree about the destination; write errors (a separate stream of the generator, so the
+    # sessions above are the same as before for a given seed)
+    import random
+    rng2 = random.Random(rng.randrange(2 ** 32))
+    for _ in range(1 if tier == "quick" else 6):
+        cases += gen_frag_directed(rng2)
+        cases += gen_werr_directed(rng2)
+    for _ in range(60 if tier == "quick" else 1500):
+        cases.append(gen_frag_session(rng2))
     return cases
 
 
@@ -135,17 +295,24 @@ def to_coq(c, o):
     hm = "HMOff" if h[0] == 0 else "(HMConst %d)" % h[1] if h[0] == 1 else "(HMMod %d %d)" % (h[1], h[2]) if h[0] == 2 else "HMErr"
     st = []
     for op, s in zip(c["ops"], o["steps"]):
-        if op[0] == 0:
+        if op[0] in (0, 3):
             a = op[1]
+            pid, fid, cnt = (op[4], op[5], op[6]) if op[0] == 3 else (0, 0, 1)
+            chk = s[4] if len(s) > 4 else (a if s[0] & 4 else 0)
+            plain = cnt <= 1 and chk == (a if s[0] & 4 else 0)      # SD: a consulted CheckUDP was consulted for a itself
             short = {0: "Fc", 4: "Fk", 1: "Dc", 5: "Dk"}.get(s[0])
-            if short and s[1] == (a if s[0] % 4 == 0 else 0) and s[2] == 0 and s[3] == 0:
+            if plain and short and s[1] == (a if s[0] % 4 == 0 else 0) and s[2] == 0 and s[3] == 0:
                 st.append("%s %d" % (short, a))
-            elif s[0] == 20 and s[1] == a and s[3] == 0:
+            elif plain and s[0] == 20 and s[1] == a and s[3] == 0:
                 st.append("Fe %d %d" % (a, s[2]))
-            elif s[0] == 21 and s[1] == 0 and s[3] == 0:
+            elif plain and s[0] == 21 and s[1] == 0 and s[3] == 0:
                 st.append("De %d %d" % (a, s[2]))
-            else:
+            elif plain:
                 st.append("SD %d %d %d %d %d" % (a, s[0], s[1], s[2], s[3]))
+            elif s[0] == 1 and s[1] == 0 and s[2] == 0 and s[3] == 0 and chk == 0:
+                st.append("Nf %d %d %d %d" % (pid, fid, cnt, a))
+            else:
+                st.append("SM %d %d %d %d %d %d %d %d %d" % (pid, fid, cnt, a, s[0], s[1], s[2], s[3], chk))
         elif op[0] == 1:
             st.append("SR %d %d %d" % (op[1], s[0], s[1]))
         else:
@@ -158,27 +325,48 @@ def to_coq(c, o):
 def _stats(c, o):
     ev = den = fwd = 0
     for op, s in zip(c["ops"], o.get("steps") or []):
-        if op[0] == 0:
+        if op[0] in (0, 3):
             if s[0] & 16:
                 ev += 1
-            if s[0] % 4 == 1:
+            if s[0] % 4 == 1 and (op[0] == 0 or s[0] & 4):
                 den += 1
             if s[0] % 4 == 0:
                 fwd += 1
     return ev, den, fwd
 
 
+def _frag_stats(c, o):
+    """(datagrams completed from fragments that disagree about the destination, write errors that reached the socket)"""
+    dis = wf = 0
+    cur = {}
+    for op, s in zip(c["ops"], o.get("steps") or []):
+        if op[0] == 3 and op[6] > 1:
+            key = (op[4], op[6])
+            if cur.get("key") != key:
+                cur = {"key": key, "addrs": set()}
+            cur["addrs"].add(op[1])
+            if s and (s[0] % 4 == 0 or s[0] & 4) and len(cur["addrs"]) > 1:
+                dis += 1
+        if op[0] in (0, 3) and s and s[0] & 128:
+            wf += 1
+    return dis, wf
+
+
 def klass(c, o):
     ev, den, fwd = _stats(c, o)
     h = {0: "nohook", 1: "hook-all", 2: "hook-some", 3: "hook-err"}[c["hook"][0]]
     n = len(c["ops"])
-    return "%s:%s:%s%s" % (h, "len<=256" if n <= 256 else "len<=700" if n <= 700 else "len>700",
-                           "evict" if ev else "noevict", "+deny" if den else "")
+    dis, wf = _frag_stats(c, o)
+    frag = any(op[0] == 3 for op in c["ops"])
+    return "%s:%s:%s%s%s%s" % (h, "len<=256" if n <= 256 else "len<=700" if n <= 700 else "len>700",
+                               "evict" if ev else "noevict", "+deny" if den else "",
+                               "+frag-disagree" if dis else "+frag" if frag else "", "+write-error" if wf else "")
 
 
 def nontrivial(c, o):
     ev, den, fwd = _stats(c, o)
-    return ev > 0 or den > 0 or (c["hook"][0] in (1, 2) and fwd > 0)
+    dis, wf = _frag_stats(c, o)
+    return ev > 0 or den > 0 or (c["hook"][0] in (1, 2) and fwd > 0) or dis > 0 or wf > 0
 
 
 def fingerprint(c, o):
@@ -631,7 +819,13 @@ LEVEL_TEXT = ("Machine-checked Coq theorems over a statement-by-statement Gallin
               "every eviction choice, a datagram is written only to a destination the policy allows, exactly the allowed ones are "
               "forwarded in un-hooked sessions (equal to the cache-less evaluation), the cache only ever holds the policy's own verdicts, "
               "and a hooked session writes everything to the rewritten destination without consulting CheckUDP and reports replies from "
-              "the original one. Tied to /repo on every run by the regenerated cap and a differential replay of ~200 recorded sessions "
+              "the original one. Second layer (the whole Feed: Defragger, WriteTo result, entries without a socket): for every sequence of "
+              "fragments with arbitrary packet ids / fragment ids / counts / per-fragment addresses, every arrival order, every injected write "
+              "error, nothing is ever handed to WriteTo for a rejected destination; the address given to checkAddr is the address given to "
+              "WriteTo and is the address of the message the Defragger returns (the last arrived fragment, by composition with the C05 "
+              "model); a failed WriteTo is only reported (one attempt, same state); an overridden session only ever writes to the rewritten "
+              "destination; the first layer is the restriction to complete messages. "
+              "Tied to /repo on every run by the regenerated cap and a differential replay of ~250 recorded sessions "
               "(with Go's actual eviction choices) against the model in the kernel.")
 LEVEL_NOTE = ("Trusted: Coq kernel + vm_compute; hand-written model (tie is sampled differential testing + regenerated Params); python/Go glue. "
               "No axioms. Not proved: policies that are not functions of the destination string (a real resolver may answer differently from one "
